@@ -18,12 +18,12 @@ import (
 // ------------------------------------------------------------ constructors
 
 type CtorCase struct {
-	Kind   string `json:"kind"` // linv lind expv expd pairs
-	Start  pbt.F  `json:"start"`
-	Step   pbt.F  `json:"step"` // width or factor
-	DStart int64  `json:"dstart,omitempty"`
-	DStep  int64  `json:"dstep,omitempty"`
-	N      int    `json:"n"`
+	Kind   string  `json:"kind"` // linv lind expv expd pairs
+	Start  pbt.F   `json:"start"`
+	Step   pbt.F   `json:"step"` // width or factor
+	DStart int64   `json:"dstart,omitempty"`
+	DStep  int64   `json:"dstep,omitempty"`
+	N      int     `json:"n"`
 	Spec   []pbt.F `json:"spec,omitempty"`  // for pairs
 	DSpec  []int64 `json:"dspec,omitempty"` // for pairs
 }
